@@ -187,12 +187,12 @@ def _fam_check(flag):
     return lambda seed, tier: (d for d in fam_files(seed, tier) if d["check_cmac"] == flag)
 
 
-@proof("C01/from_binary(layout(f))=f[mac-check-on]", functions=FUNCS, family=_fam_check(True))
+@proof("C01/from_binary(layout(f))=f[mac-check-on]", functions=FUNCS, family=_fam_check(True), shards=6)
 def roundtrip_binary_on(vc):
     roundtrip_binary(vc, True)
 
 
-@proof("C01/from_binary(layout(f))=f[mac-check-off]", functions=FUNCS, family=_fam_check(False))
+@proof("C01/from_binary(layout(f))=f[mac-check-off]", functions=FUNCS, family=_fam_check(False), shards=6)
 def roundtrip_binary_off(vc):
     roundtrip_binary(vc, False)
 
